@@ -19,7 +19,7 @@ CONSTANTS NW, Rows, WireMode, SortKeys
 
 Dummy(x) == 1
 C == INSTANCE Compress WITH BaseList <- <<0, 1, 2>>, ScalarBytes <- Dummy,
-                            IntBytes <- Dummy, Canonical <- Dummy
+                            IntBytes <- Dummy, Canonical <- Dummy, TailIgnored <- FALSE
 
 W == 0..(NW - 1)
 WireTuples == IF WireMode = "full" THEN {<<a, b, x, d>> : a \in W, b \in W, x \in W, d \in W}
